@@ -65,6 +65,7 @@ type Report struct {
 	seenKeys    map[string]bool
 	start       time.Time
 	extra       map[string]any
+	noReplay    bool
 }
 
 func newReport(prop, tier string, seed int64, verif string) *Report {
@@ -150,9 +151,11 @@ func (r *Report) finish(evidencePath string, explanation string) int {
 	sort.SliceStable(r.Obs, func(i, j int) bool { return r.Obs[i].Key < r.Obs[j].Key })
 	nV, nK, nD, nA := 0, 0, 0, 0
 	replayDir := filepath.Join(r.VerifDir, "replay")
-	os.MkdirAll(replayDir, 0o755)
+	if !r.noReplay {
+		os.MkdirAll(replayDir, 0o755)
+	}
 	// remove stale replay files of this property
-	if old, _ := filepath.Glob(filepath.Join(replayDir, r.Property+"-*.json")); old != nil {
+	if old, _ := filepath.Glob(filepath.Join(replayDir, r.Property+"-*.json")); old != nil && !r.noReplay {
 		for _, f := range old {
 			os.Remove(f)
 		}
@@ -277,6 +280,9 @@ func (r *Report) finish(evidencePath string, explanation string) int {
 
 func (r *Report) writeReplay(dir string, o Ob) string {
 	p := filepath.Join(dir, fmt.Sprintf("%s-%s.json", r.Property, keyHash(o.Key)))
+	if r.noReplay {
+		return "(not written)"
+	}
 	b, _ := json.MarshalIndent(map[string]any{
 		"property": r.Property, "rule": o.Rule, "construct": o.Key, "position": o.Pos,
 		"detail": o.Detail, "witness": o.Witness, "rule_doc": r.RuleDoc[o.Rule],
